@@ -175,6 +175,7 @@ def run_history(acc, role, n_out, n_in, logon_first, ops, maxlen, frame_hook=Non
                         acc.klass(f"refused/{st0.name}")
                     elif cls in ("PD", "4own"):
                         acc.klass(f"own-number-send-raised/{type(e).__name__}")  # FREE (duplicate number etc.)
+                        stale_store = True  # it may have been journaled under its own (old) number before it failed
                     elif isinstance(e, (ConnectionError, OSError)):
                         acc.klass("send-failed-transport")
                     else:
